@@ -21,6 +21,7 @@ def parseStmt (j : Json) : Stmt :=
   | "concat" => .concat (fldNat j "x") (fldNat j "y")
   | "sort" => .sort (fldNat j "x")
   | "cumsum" => .cumsum (fldNat j "x")
+  | "unique" => .unique (fldNat j "x")
   | "diff" => .diff (fldNat j "x")
   | "assign" => .assign (fldNat j "x") (parseIndex (fld j "idx")) (parseValueI (fld j "val"))
   | "read_idx" => .readIdx (fldNat j "x") (parseIndex (fld j "idx"))
